@@ -25,7 +25,7 @@ func init() {
 func runC15(c *Ctx) {
 	c.Rule("C15.O1", "E4", "nextFrame: isMessageTooLarge(len(message)+declared length) dominates acceptance; true edge returns ErrMessageTooLarge", 1)
 	c.Rule("C15.O2", "E4", "readAll: after each extension by the read count a limit test on the new length precedes any return of the buffer; Append only behind isMessageTooLarge(len+1)==false", 2)
-	c.Rule("C15.O3", "E4", "WriteMessage: len(data)>125 for opcodes 8,9,10 returns ErrControlMessageTooBig and dominates every writeFrame", 1)
+	c.Rule("C15.O3", "E4", "WriteMessage and WriteFrame (the exported writers that reach writeFrame): len(data)>125 for opcodes 8,9,10 returns ErrControlMessageTooBig and dominates every writeFrame", 2)
 	c.Rule("C15.O4", "E4", "Parse: the append to the input cache is unreachable without the ReadLimit test", 1)
 	c.Rule("C15.O5", "E4", "Parse: errors ErrMessageTooLarge and ErrControlMessageTooBig pass WriteClose(1009, ...) before the return", 1)
 	c.Rule("C15.O6", "E8", "isMessageTooLarge(n) == (MessageLengthLimit > 0 && n > MessageLengthLimit)", 1)
@@ -222,11 +222,15 @@ func runC15(c *Ctx) {
 	}
 
 	// ------------------------------------------------------------------ O3
-	if wm := c.Fn("C15.O3", "(*websocket.Conn).WriteMessage"); wm != nil {
+	for _, wname := range []string{"(*websocket.Conn).WriteMessage", "(*websocket.Conn).WriteFrame"} {
+		wm := c.Fn("C15.O3", wname)
+		if wm == nil {
+			continue
+		}
 		fi := c.P.Info(wm)
 		pd := paramOfType(wm, "[]byte")
 		key := fnKey(c.P, wm, "control payload > 125 refused")
-		bad := "no return of ErrControlMessageTooBig"
+		bad := "no return of ErrControlMessageTooBig: " + wname + " is exported and reaches writeFrame, so a ping, pong or close frame of more than 125 bytes is put on the wire (WriteFrame(PingMessage, true, true, 200 bytes) returns nil and writes 204 bytes)"
 		for _, r := range fi.Returns() {
 			rv := ir.RetVals(r)
 			if c.P.Desc(rv[len(rv)-1]) != "websocket.ErrControlMessageTooBig" {
